@@ -101,8 +101,8 @@ PROPS['C12'] = {
 }
 PARSER_PARAMS = {
     'h3[01]': {'quick': {'params': {'PARSE_N': 22, 'TAIL_N': 12}}, 'thorough': {'params': {'PARSE_N': 30, 'TAIL_N': 18}}},
-    'h20': {'quick': {'params': {'PARSE_N': 12, 'TAIL_N': 6}}, 'thorough': {'params': {'PARSE_N': 18, 'TAIL_N': 12}}},
-    'h40': {'quick': {'params': {'PARSE_N': 20, 'TAIL_N': 6}}, 'thorough': {'params': {'PARSE_N': 30, 'TAIL_N': 12}}},
+    'h20': {'quick': {'handler': 'plain', 'params': {'PARSE_N': 12, 'TAIL_N': 6}}, 'thorough': {'handler': 'plain', 'params': {'PARSE_N': 18, 'TAIL_N': 12}}},
+    'h40': {'quick': {'handler': 'plain', 'params': {'PARSE_N': 20, 'TAIL_N': 6}}, 'thorough': {'handler': 'plain', 'params': {'PARSE_N': 30, 'TAIL_N': 12}}},
 }
 PARSER_BOUNDS = ('two input spaces per version, both decided completely by the solver: (a) every byte string of length <= PARSE_N; (b) "shaped" strings: the canonical base part '
                  '(header, mandatory metrics in specification order) with every VALUE an arbitrary byte other than \'/\', followed by an arbitrary byte string of length <= TAIL_N '
@@ -152,7 +152,7 @@ PROPS['C13'] = {
     'bounds': 'quick: (a) PARSE_N = 10, (b) tail <= 6; thorough: 16 / 12. The second half of the property (Vector() output) follows from (b) together with C08 (Vector() output starts with the version\'s header and canonical base part); not checked directly',
     'solvers': {'quick': ['z3'], 'thorough': ['z3', 'z3new']},
     'timeout': {'quick': 900, 'thorough': 3600},
-    'per_harness': {'.': {'quick': {'params': {'PARSE_N': 10, 'TAIL_N': 6}}, 'thorough': {'params': {'PARSE_N': 16, 'TAIL_N': 12}}}},
+    'per_harness': {'.': {'quick': {'params': {'PARSE_N': 10, 'TAIL_N': 6}}, 'thorough': {'params': {'PARSE_N': 16, 'TAIL_N': 12}}}, 'OneVersion': {'handler': 'plain'}},
     'technique': PROPS['C01']['technique'],
 }
 PROPS['C14'] = {
